@@ -285,6 +285,8 @@ pub struct Rec {
     pub hwaker: Option<Waker>,
     /// external handler events so far
     pub hwc: usize,
+    /// responses with a body whose body has not ended yet
+    pub body_open: usize,
 }
 
 pub struct ScriptBody {
@@ -314,6 +316,7 @@ impl MessageBody for ScriptBody {
                 Poll::Ready(Some(Ok(Bytes::from(vec![b'b'; n]))))
             }
             Some(BAct::End) => {
+                rec.body_open = rec.body_open.saturating_sub(1);
                 rec.produced += enc_end(this.stream);
                 Poll::Ready(None)
             }
@@ -382,6 +385,9 @@ impl Future for HandlerFut {
                     let mut rec = this.rec.borrow_mut();
                     rec.responded += 1;
                     rec.produced += resp_head_len_cached(&b);
+                    if !matches!(b, RespBody::None) {
+                        rec.body_open += 1;
+                    }
                     let (size, stream, acts) = match b {
                         RespBody::None => (BodySize::None, false, vec![]),
                         RespBody::Sized(a) => (BodySize::Sized(sized_total(&a) as u64), false, a),
@@ -413,6 +419,8 @@ pub struct Snap {
     pub produced: usize,
     /// responses returned by handlers so far
     pub responded: usize,
+    /// response bodies still open
+    pub body_open: usize,
     /// polls performed in this round (wake-driven mode)
     pub polls: usize,
 }
@@ -540,6 +548,7 @@ pub fn run_case(case: &Case, wake_driven: bool) -> RunOut {
                     hreg: rc.hreg,
                     produced: rc.produced,
                     responded: rc.responded,
+                    body_open: rc.body_open,
                     polls,
                 };
                 if snap.res != 0 {
@@ -567,6 +576,7 @@ pub fn run_case(case: &Case, wake_driven: bool) -> RunOut {
                     accepted: s.total_written,
                     produced: rc.produced,
                     responded: rc.responded,
+                    body_open: rc.body_open,
                     ..Default::default()
                 };
             }
